@@ -43,12 +43,30 @@ CHECKS.update({
    design='DESIGN.md 5/C09, 10'),
 })
 
+CHECKS.update({
+ 'C13': dict(engine='query', note='Trusted: Coq 8.16.1 kernel; extraction (ExtrOcamlBasic only); ocaml/driver_query.ml; harness/query_*.py. Candidate enumeration per function and root kind is NOT modelled and is covered only by the metamorphic oracle on the real query functions; regex model restricted to a fragment (literals, ., classes, concatenation, alternation, star, escapes), outside it only the oracle applies; values under a key are ASCII strings or absent. 6 open known findings (C13-K1..K6). All theorems: Closed under the global context.',
+   technique='Coq proof over a Gallina model of the fnmatch fragment, a Brzozowski regex matcher with parser and the two filter-stage shapes + matcher-level and stage-level correspondence of the extracted model (multisets) + metamorphic oracle on the 13 real query functions',
+   text='proof (refuted at full strength): for the model: matcher = declarative wildcard/regex semantics (sound and complete), absolute pattern => equality (justifies the fast lookup), case-insensitive match = match of lower-cased sides, re.escape(s) matches exactly s; filter stages = set-filter of the candidates, pattern-order invariant, fast lookup = scan under C10\'s invariant; NoDup for get_ports/get_cables/get_netlists, the hierarchical name stage and stage A. C13_full (incl. no element twice) is REFUTED (C13_refuted: duplicate yields in the name-map stage of get_instances/get_libraries/get_definitions), the witness is replayed on the implementation on every run and listed as open known finding with 5 more.',
+   design='DESIGN.md 5/C13, 10'),
+ 'C17': dict(engine='names', note='Trusted: Coq 8.16.1 kernel; extraction (ExtrOcamlBasic only); ocaml/driver_names.ml; harness/names_*.py. ASCII names only (str.isalpha/isalnum are Unicode-aware); the per-wire net identifiers of multi-wire cables, _topological_sort and the output routines are covered by the end-to-end oracle (compose, independent s-expression reading, sdn.parse) only. 8 open known finding classes. All theorems: Closed under the global context.',
+   technique='Coq proof over a Gallina model of EdififyNames and _add_rename_property + differential correspondence of the extracted model (exhaustive short names, random 1..300-character names) + end-to-end compose/parse oracle',
+   text='proof (refuted at full strength by length only: C17_refuted, a 256-character identifier is produced; proved for every scope of sibling names: C17_all_but_length = termination with fuel 2*siblings+2 (pigeonhole), completion, legal characters, rename flag iff identifier differs, pairwise distinctness after lower-casing and distinctness from sibling names; full conclusion when nothing is truncated: C17_partial; legality iff "not _-initial and short enough": C17_legal_iff).',
+   design='DESIGN.md 5/C17, 10'),
+})
+ENGINES_EXTRA = [
+ {'name': 'query', 'path': 'coq/theories/Query + ocaml/driver_query.ml + harness/query_*.py', 'serves_properties': ['C13'],
+  'kind_free_text': 'Gallina model of the pattern matcher (fnmatch fragment, regex fragment) and of the filter stages shared by the get_* functions; matcher- and stage-level differential runs; metamorphic oracle on the real functions'},
+ {'name': 'names', 'path': 'coq/theories/Names + ocaml/driver_names.ml + harness/names_*.py', 'serves_properties': ['C17'],
+  'kind_free_text': 'Gallina model of EDIF identifier assignment (make_valid and the per-scope sequential assignment); differential run; end-to-end compose/parse oracle'},
+]
+
 ENGINES = [
  {'name': 'ir', 'path': 'coq/theories/IR + ocaml/driver_ir.ml + harness/ir_*.py', 'serves_properties': ['C01', 'C02', 'C10', 'C14', 'C19'],
   'kind_free_text': 'Gallina model of all public IR mutators and of the namespace manager, extracted to OCaml; differential run against the real spydrnet with canonical dumps after every call'},
  {'name': 'xform', 'path': 'coq/theories/Xform + ocaml/driver_xform.ml + harness/xform_check.py', 'serves_properties': ['C07', 'C08', 'C09'],
   'kind_free_text': 'Gallina model of clone (all kinds), uniquify and flatten on top of the IR model; differential run on hierarchical netlists; identity/structure/elaboration oracles'},
 ]
+ENGINES += ENGINES_EXTRA
 
 checks = []
 for p in props:
